@@ -65,6 +65,18 @@ def check(acc, prog, name, sample=False):
     if d.fallback:
         acc.violation("fallback-for-flat-program", {"note": "SsbScript fallback instead of structured text"}, inp)
         return
+    # the compiled routines as the compiler handed them over (no copy), decompiled twice: the same structured text both times
+    try:
+        t_a, _ = norm.decompile_exps(c.routine_infos, ops, c.named_coroutines, deep=False)
+        t_b, _ = norm.decompile_exps(c.routine_infos, ops, c.named_coroutines, deep=False)
+        acc.count("decompiled_twice_from_the_same_objects")
+        if t_a != d.text or t_b != d.text:
+            acc.violation(gsig("text-differs-when-the-same-routines-are-decompiled-again", "fallback" if norm.is_fallback(t_b) else "other"),
+                          {"second": t_b[:300]}, inp)
+            return
+    except Exception as e:
+        acc.violation(gsig("no-answer-when-the-same-routines-are-decompiled-again", type(e).__name__), {"error": str(e)[:200]}, inp)
+        return
     try:
         p2 = t2a.parse_program(d.text)
     except Exception as e:
